@@ -132,6 +132,10 @@ LeafForm(k, p, vp) ==
     [] k = "feqq"     -> FieldVal(p, "quoted", vp)
     [] k = "feqifloat" -> FieldVal(p, "ifloat", vp)
     [] k = "feqempty" -> FieldVal(p, "empty", vp)
+    [] k = "femptyfield" -> LET f == Tk("empty", p) v == Tk("word", p + 1) IN     \* "":w - a field whose name is the empty string
+                            Out(<<f, Sy("COLON"), v>>, [op |-> "EQUALS", l |-> RCol(f), r |-> RLeaf(v)], p + 2)
+    [] k = "femptylist" -> LET f == Tk("empty", p) a == Tk("word", p + 1) b == Tk("int", p + 2) IN
+                           Out(<<f, Sy("COLON"), LP, a, Sy("OR"), b, RP>>, [op |-> "IN", l |-> RCol(f), items |-> <<RLeaf(a), RLeaf(b)>>], p + 3)
     [] k = "fwild"    -> FieldVal(p, "wild", vp)
     [] k = "fstar"    -> FieldVal(p, "star", vp)
     [] k = "fre"      -> FieldVal(p, "regexp", vp)
@@ -178,7 +182,9 @@ P(T, pos, path, J, R) ==
     [] T.op \in {"FUZZY","BOOST"} ->
          LET a == Wrap(T.a, pos, Append(path, "a"), J, R, R \/ Level(T.a) < Level(T))
              arg == IF T.p = "none" THEN <<>> ELSE <<Tk(T.p, a.pos)>>
-         IN Out(a.toks \o <<Sy(Sym(T.op))>> \o arg,
+             \* redundant parentheses around the number as well (it stands where an operand of ~ / ^ stands)
+             parg == IF R /\ arg # <<>> THEN <<LP>> \o arg \o <<RP>> ELSE arg
+         IN Out(a.toks \o <<Sy(Sym(T.op))>> \o parg,
                 [op |-> T.op, l |-> a.tree, p |-> IF T.p = "none" THEN "1" ELSE arg[1].v],
                 a.pos + Len(arg))
 
